@@ -511,11 +511,7 @@ def ref_store_load(kernel, isa):
                             const += li[1] * lm["scale"]
                         verdict = const == saddr_const
                     if own_wb and base_overwritten:
-                        dontcare.add((a, b))
-                    elif own_wb and verdict is False and lb is not None and lb[0] == sbase:
-                        # the store's own write-back is not 'between store and load': outside the statement
-                        dontcare.add((a, b))
-                    elif own_wb and verdict:
+                        # the real search gives up when the base of a write-back store is written again: not judged
                         dontcare.add((a, b))
                     elif verdict:
                         edges.add((a, b))
